@@ -25,6 +25,8 @@ type C08Params struct {
 	DirPlan []simrt.Plan `json:"dir_plans"`
 	Plans   []simrt.Plan `json:"plans"`
 	Probe   string       `json:"probe"` // which cross-file probe the world contains
+	// PreUpdate: targets (indices in sorted order) brought up to date before every history, so that compare sees a mix of current and stale rules
+	PreUpdate []int `json:"pre_update,omitempty"`
 }
 
 func genC08(t *rapid.T, tier string) (*World, any) {
@@ -97,7 +99,7 @@ func genC08(t *rapid.T, tier string) (*World, any) {
 	}
 	// cross-file probes
 	sort.Strings(targets)
-	p.Probe = pick(t, []string{"none", "none", "stash-writer-reader", "unclosed-block", "definition-elsewhere", "flags-elsewhere", "prefix-elsewhere"}, "probe")
+	p.Probe = pick(t, []string{"none", "none", "stash-writer-reader", "unclosed-block", "definition-elsewhere", "flags-elsewhere", "prefix-elsewhere", "exclude-under-other-definitions"}, "probe")
 	a, b := targets[0], targets[1]
 	if drawBool(t, "probe-swap") {
 		a, b = b, a
@@ -112,6 +114,13 @@ func genC08(t *rapid.T, tier string) (*World, any) {
 	case "definition-elsewhere":
 		progs[a] = append([]string{"##!> define shareddef [0-9]+"}, progs[a]...)
 		progs[b] = append(progs[b], "q{{shareddef}}")
+	case "exclude-under-other-definitions":
+		// two files reach the same exclude file through include files that define the same name differently
+		w.Put("crs/regex-assembly/include/words-ing.ra", "##!> define tail ing\nrunn{{tail}}\njump{{tail}}\nwalk{{tail}}\n")
+		w.Put("crs/regex-assembly/include/words-er.ra", "##!> define tail er\nrunn{{tail}}\njump{{tail}}\nwalk{{tail}}\n")
+		w.Put("crs/regex-assembly/exclude/no-jump.ra", "jump{{tail}}\n")
+		progs[a] = append(progs[a], "##!> include-except words-ing no-jump")
+		progs[b] = append(progs[b], "##!> include-except words-er no-jump")
 	case "flags-elsewhere":
 		progs[a] = append([]string{"##!+ i"}, lowerAll(progs[a])...)
 	case "prefix-elsewhere":
@@ -126,7 +135,12 @@ func genC08(t *rapid.T, tier string) (*World, any) {
 	// orders of single invocations
 	n := len(targets)
 	if p.Cmd == "format" || p.Cmd == "format-check" {
-		n += 2 // the two include files are addressable too
+		// the include files are addressable too
+		for path := range w.Files {
+			if strings.HasPrefix(path, "crs/regex-assembly/include/") {
+				n++
+			}
+		}
 	}
 	no := 3
 	if tier == "thorough" {
@@ -135,6 +149,13 @@ func genC08(t *rapid.T, tier string) (*World, any) {
 	for i := 0; i < no; i++ {
 		perm := simrt.Permutation(n, decisionOf(drawInt(t, 1, 24, "order")))
 		p.Orders = append(p.Orders, perm)
+	}
+	if strings.HasPrefix(p.Cmd, "compare") {
+		for i := range targets {
+			if chance(t, 50, "preupdate") {
+				p.PreUpdate = append(p.PreUpdate, i)
+			}
+		}
 	}
 	for i := 0; i < 2; i++ {
 		pl := simrt.Plan{DirAll: decisionOf(drawInt(t, 1, 24, "dirorder"))}
@@ -224,6 +245,14 @@ func evalC08(sc *Scenario, sim *Sim) ([]Violation, bool, string) {
 	defer sb.Close()
 	rulesPath := "crs/rules/REQUEST-942-APPLICATION-ATTACK-SQLI.conf"
 	items := walkItems(sb, p.Cmd)
+	restore := func() {
+		sb.Restore(sc.World)
+		for _, i := range p.PreUpdate {
+			if i < len(items) {
+				sb.Run(Step{Argv: []string{"regex", "update", items[i].Arg}, Cwd: "crs"})
+			}
+		}
+	}
 	var viol []Violation
 	add := func(oracle, what, msg, detail string) {
 		viol = append(viol, Violation{Prop: "C08", Oracle: oracle, Sig: "C08/" + p.Cmd + "/" + oracle + "/" + what + "/" + p.Probe, Msg: msg,
@@ -261,7 +290,7 @@ func evalC08(sc *Scenario, sim *Sim) ([]Violation, bool, string) {
 	plan := func() simrt.Plan { planNo++; return p.Plans[planNo%len(p.Plans)] }
 
 	// E: the single invocations in walk order
-	sb.Restore(sc.World)
+	restore()
 	var exits []int
 	var outs [][]byte
 	firstFail := -1
@@ -287,7 +316,7 @@ func evalC08(sc *Scenario, sim *Sim) ([]Violation, bool, string) {
 		subset = items[:firstFail+1]
 	}
 	// A: --all
-	sb.Restore(sc.World)
+	restore()
 	ra := sb.Run(Step{Argv: argvAll(), Cwd: "crs", Plan: plan()})
 	diskA := raContents(sb, items, rulesPath)
 	switch p.Cmd {
@@ -373,7 +402,7 @@ func evalC08(sc *Scenario, sim *Sim) ([]Violation, bool, string) {
 	// B: the single invocations in other orders (restricted to the files processed before an abort)
 	if p.Cmd == "update" || p.Cmd == "format" {
 		for oi, order := range p.Orders {
-			sb.Restore(sc.World)
+			restore()
 			for _, idx := range order {
 				if idx >= len(subset) {
 					continue
@@ -392,7 +421,7 @@ func evalC08(sc *Scenario, sim *Sim) ([]Violation, bool, string) {
 	// A': --all under permuted directory listings (only when every file is valid: an abort cuts the run at an order-dependent point by design)
 	if firstFail < 0 && (p.Cmd == "update" || p.Cmd == "format" || p.Cmd == "compare-gh") {
 		for _, dp := range p.DirPlan {
-			sb.Restore(sc.World)
+			restore()
 			r := sb.Run(Step{Argv: argvAll(), Cwd: "crs", Plan: dp})
 			diskP := raContents(sb, items, rulesPath)
 			if d := diffMaps(diskA, diskP); len(d) > 0 {
